@@ -1118,8 +1118,10 @@ def part_impl_model(chk):
 CK_ARGS = ["i7", "s61", "f%d" % FLOAT_BITS["half"], "i-2"]        # what harness/c19/gomod/ck.Arg(i) builds; must equal the spec's ArgSeq
 REF_GO = {"vmod.who": "bvmod.Who", "vpk_sub.who": "bvsub.Who", "builtins.abs": "std.Abs"}
 REF_PYMOD = {"vmod": "vmod", "vpk_sub": "vpk.sub", "builtins": "builtins", "vpk": "vpk"}
-SYM_GO = {"vmod.who": "bvmod.Who()", "vpk.alpha": "bvpk.Alpha()", "vpk_sub.who": "bvsub.Who()", "vpk.zeta": "bvpk.Zeta()"}
-SHAPE_PKG_IMPORT = {"bvmod.": '"c19prog/bvmod"', "bvsub.": '"c19prog/bvsub"', "bvpk.": '"c19prog/bvpk"', "std.": '"github.com/goplus/lib/py/std"',
+# colookup: the bindings are generated, with names of their own per case (pylib defines who00.., alpha00.., zeta00.. as
+# aliases): the binding of a name is shared by all packages of a program and filled by the first one that needs it
+SYM_PKG = {"vmod": "kvmod", "vpk": "kvpk", "vpk_sub": "kvsub"}
+SHAPE_PKG_IMPORT = {"bvmod.": '"c19prog/bvmod"', "bvsub.": '"c19prog/bvsub"', "kvmod.": '"c19prog/kvmod"', "kvpk.": '"c19prog/kvpk"', "kvsub.": '"c19prog/kvsub"', "std.": '"github.com/goplus/lib/py/std"',
                     "bdual.": '"c19prog/bdual"', "bgv.": '"c19prog/bgv"', "math.": '"github.com/goplus/lib/py/math"',
                     "py.": '"github.com/goplus/lib/py"', "vx.": '"c19prog/vx"', "ck.": '"c19prog/ck"'}
 
@@ -1186,7 +1188,7 @@ def shape_go_calls(c):
     if fam == "hypot":
         return ["math.Hypot(%s)" % ", ".join("py.Float(%d)" % x for x in c["coords"])]
     if fam == "colookup":
-        return [SYM_GO[y["mod"] + "." + y["attr"]] for y in c["syms"]]
+        return ["%s.%s%02d()" % (SYM_PKG[y["mod"]], y["attr"].capitalize(), c["_alias"]) for y in c["syms"]]
     if fam == "dual":
         return ["bdual.D%d(%s)" % (len(call["args"]), ", ".join(shape_go_arg(a, i) for i, a in enumerate(call["args"]))) for call in c["calls"]]
     if fam == "funcref":
@@ -1208,7 +1210,7 @@ def shape_py_calls(c):
     if c["fam"] == "hypot":
         return ["math.hypot(%s)" % ", ".join("%d.0" % x for x in c["coords"])]
     if c["fam"] == "colookup":
-        return ["getattr(importlib.import_module(%r), %r)()" % (REF_PYMOD[y["mod"]], y["attr"]) for y in c["syms"]]
+        return ["getattr(importlib.import_module(%r), %r)()" % (REF_PYMOD[y["mod"]], "%s%02d" % (y["attr"], c["_alias"])) for y in c["syms"]]
     return ["vmod.%s(%s)" % (shape_pyname(c), ", ".join(shape_py_arg(a) for a in call["args"])) for call in c["calls"]]
 
 
@@ -1224,6 +1226,17 @@ def gen_shape_modules(cases, dropped=()):
         pkgs.setdefault(shape_pkg_of(i, c), []).append(i)
     files = {}
     order = []
+    binds = {}
+    for c in cases:
+        if c["fam"] == "colookup":
+            for y in c["syms"]:
+                binds.setdefault(y["mod"], []).append("//go:linkname %s%02d py.%s%02d\nfunc %s%02d() *py.Object\n" % (
+                    y["attr"].capitalize(), c["_alias"], y["attr"], c["_alias"], y["attr"].capitalize(), c["_alias"]))
+    for mod, decls in binds.items():
+        files["%s/%s.go" % (SYM_PKG[mod], SYM_PKG[mod])] = (
+            "// generated by /verif/vlib/c19.py: bindings of Python module %s, one set of names per colookup case\npackage %s\n\n"
+            "import (\n\t_ \"unsafe\"\n\n\t\"github.com/goplus/lib/py\"\n)\n\nconst LLGoPackage = \"py.%s\"\n\n%s"
+            % (REF_PYMOD[mod], SYM_PKG[mod], REF_PYMOD[mod], "\n".join(decls)))
     for pkg, ids in pkgs.items():
         if pkg in dropped:
             continue
@@ -1321,7 +1334,11 @@ def part_callshapes(chk):
     cases = [c for _, c in sorted(bykey.items(), key=lambda kc: (famrank[kc[1]["fam"]], kc[0]))]
     counts = {}
     for c in cases:
+        if c["fam"] == "colookup":
+            c["_alias"] = counts.get("colookup", 0)
         counts[c["fam"]] = counts.get(c["fam"], 0) + 1
+    if counts.get("colookup", 0) > 16:
+        raise C.Undecided("pylib defines 16 sets of per-case names, PyCallShapes has %d colookup cases" % counts["colookup"])
     if sorted(counts) != sorted(famrank):
         raise C.Undecided("PyCallShapes printed no cases for some family: %r" % counts)
     exp = [shape_expectation(c) for c in cases]
